@@ -157,6 +157,7 @@ func (P *Program) registerIntrinsics() {
 	P.registerSQL()
 	P.registerVHDB()
 	P.registerWriteStmts()
+	P.registerGin()
 }
 
 func (P *Program) registerVH() {
@@ -177,6 +178,20 @@ func (P *Program) registerVH() {
 		in := fr.in
 		t := in.newNondet(in.goStr(args[0], "nondet name"), "str", smt.Str)
 		in.constrainStr(t)
+		return t
+	})
+	P.reg(VH+".NondetAtom", func(fr *frame, args []value) value {
+		in := fr.in
+		c := in.C
+		t := in.newNondet(in.goStr(args[0], "nondet name"), "atom", smt.Str)
+		in.constrainStr(t)
+		// space-free: a literal atom is one of a few space-free literals; hex/dec/opq never contain a space
+		var lits []*smt.Term
+		for _, l := range []string{"", "Bearer", "bearer", "Basic", "x"} {
+			lits = append(lits, c.Eq(t, c.StrConst(l)))
+		}
+		in.assumeSilently(c.Implies(c.IsLit(t), c.Or(lits...)))
+		in.path.sepFree[t.ID] = true
 		return t
 	})
 	P.reg(VH+".NondetHash", func(fr *frame, args []value) value {
